@@ -108,6 +108,17 @@ def bit_or(p, a, b):
     ca, cb = const_int(a), const_int(b)
     if ca is not None and cb is not None:
         return z3.IntVal(ca | cb)
+    if ca is not None and cb is None:
+        a, b, ca, cb = b, a, cb, ca
+    if cb is not None and cb >= 0:
+        # x | c for a constant c >= 0, exact for every integer x: each bit of c that is clear in x is added
+        out = a
+        i = 0
+        while (1 << i) <= cb:
+            if cb & (1 << i):
+                out = out + (1 - (a / (1 << i)) % 2) * (1 << i)
+            i += 1
+        return out
     r = BOR(a, b)
     bits = z3.IntVal(0)
     for i in range(BOR_W):
